@@ -70,7 +70,15 @@ DOCS.update({k: ("collection", v) for k, v in COLLECTIONS.items()})
 
 DELETE = ("<delete>",)
 RENAME_UP, RENAME_CAP = ("<rename-key-upper>",), ("<rename-key-capitalized>",)  # the key of a map entry in another letter case
-REPL = [DELETE, RENAME_UP, RENAME_CAP, None, True, 0, -1, 1.5, "", "x", "1", [], ["x"], [1], [None], {}, {"k": "v"}, {1: 2}, datetime.date(2020, 1, 1), [[]],
+ADD_INT, ADD_NULL, ADD_STR, ADD_MIXED = ("<add-entry-with-int-key>",), ("<add-entry-with-null-key>",), ("<add-entry-with-unknown-key>",), ("<add-entries-with-str-and-int-key>",)  # extra entries in a map
+ADDS = {ADD_INT: {5: 1}, ADD_NULL: {None: 1}, ADD_STR: {"zz_unknown": 1}, ADD_MIXED: {"zz_unknown": 1, 5: 1, True: 2}}
+
+
+def is_add(repl):
+    return isinstance(repl, tuple) and repl in ADDS
+
+
+REPL = [DELETE, RENAME_UP, RENAME_CAP, ADD_INT, ADD_NULL, ADD_STR, ADD_MIXED, None, True, 0, -1, 1.5, "", "x", "1", [], ["x"], [1], [None], {}, {"k": "v"}, {1: 2}, datetime.date(2020, 1, 1), [[]],
         "2024-13-45", "2023-02-30", "2021/2/30", "not-a-uuid", "5x", "1 of", "and", {"gte": "x"}, {"field": 1}, [{"id": 1}], "critical!", "a\ud800b", "attack.", ".t1059", ".", "a.b.c", "a{99999999999}", "(a", "10.0.0.1/8", 10**30, float("inf"), float("nan"), -0.0, b"bytes", datetime.datetime(2020, 1, 1, 12, 0)]
 SMALL = ["rule_min", "corr_event_count", "filter_any"]
 
@@ -96,6 +104,14 @@ SAME = ("<unchanged>",)
 
 def mutate(doc, path, repl):
     doc = copy.deepcopy(doc)
+    if is_add(repl):
+        cur = doc
+        for p in path:
+            cur = cur[p]
+        if not isinstance(cur, dict):
+            return SAME
+        cur.update(ADDS[repl])
+        return doc
     if not path:
         if repl in (RENAME_UP, RENAME_CAP):
             return SAME
@@ -123,6 +139,8 @@ def rclass(repl):
         return "delete"
     if repl in (RENAME_UP, RENAME_CAP):
         return "rename-key"
+    if is_add(repl):
+        return "add-entry"
     return type(repl).__name__ + ("-empty" if repl in ("", [], {}) else "")
 
 
